@@ -517,6 +517,20 @@ MINIMAL_REPRODUCERS = [
         "    return match(a, text) is not None\n" + FOOTER,
         (10, 12),
     ),
+    (
+        "node-inside-f-string-after-non-ascii-on-the-same-line",
+        "class Something:\n    x: Optional[int]\n\n    def __init__(self, x: Optional[int] = None) -> None:\n"
+        "        self.x = x\n\n\n@verification\ndef match_something(text: str) -> bool:\n    a = f\"\u00e9\u4e2d{a}\"\n"
+        "    return match(a, text) is not None\n" + FOOTER,
+        (10, 14),
+    ),
+    (
+        "node-inside-f-string-after-astral-on-the-same-line",
+        "class Something:\n    x: Optional[int]\n\n    def __init__(self, x: Optional[int] = None) -> None:\n"
+        "        self.x = x\n\n\n@verification\ndef match_something(text: str) -> bool:\n    a = f\"\U0001F600-{a}\"  # \u00fc\n"
+        "    return match(a, text) is not None\n" + FOOTER,
+        (10, 14),
+    ),
 ]
 
 
